@@ -141,9 +141,14 @@ func (i *Inserter) IngestTableFromSorter(columns []string, pk []uint32) ([]byte,
 	sorterErrChan := make(chan error, 1)
 	i.blocks = i.sorter.SortedBlocks(ctx, nil, sorterErrChan)
 	sum, err := i.ingestTableFromBlocks(columns, pk)
-	close(sorterErrChan)
-	if sortErr, ok := <-sorterErrChan; ok {
+	// The channel is not closed: after a worker error the sorter goroutine is
+	// still running and may yet report an error of its own (its buffered send
+	// never blocks). When the workers finished normally the sorter goroutine
+	// has sent its error, if any, before closing the blocks channel.
+	select {
+	case sortErr := <-sorterErrChan:
 		return nil, sortErr
+	default:
 	}
 	if err != nil {
 		return nil, err
